@@ -30,7 +30,7 @@ def c05(tier=None):
     c = Check("C05", ["Wasp.Properties.Facts.Wiring", "Wasp.Properties.C05", "Wasp.Properties.C05C12E2E", "Wasp.Properties.C04", "Wasp.Properties.Facts.C05"], tier)
     c.build()
     samples = []
-    scs = brokerlib.corpus(c.rng, ["inbound-outbound-id", "same-client-id-overlapping-qos2", "late-pubrel-after-timeout", "qos2-large-ids", "publish-workers-survive-failures", "local-log-fails-remote-accepts"])
+    scs = brokerlib.corpus(c.rng, ["inbound-outbound-id", "same-client-id-overlapping-qos2", "late-pubrel-after-timeout", "qos2-large-ids", "publish-workers-survive-failures", "local-log-fails-remote-accepts", "same-topic-before-and-after-remote-subscribe"])
     scs += [gen_faults(c.rng, c.rng.choice([1, 2, 3, 3])) for _ in range(n_of(c, 24, 300))]
     run_scenarios(c, "publish-under-write-failures", scs, samples)
     # the handshake table is the ack queue: its timers under real (sub-second) deadlines and sweep times
@@ -43,7 +43,7 @@ def c14(tier=None):
     c = Check("C14", ["Wasp.Properties.Facts.Wiring", "Wasp.Properties.C14", "Wasp.Properties.C03C14E2E", "Wasp.Properties.Reachable2", "Wasp.Properties.E2EMulti", "Wasp.Properties.Facts.C14"], tier)
     c.build()
     samples = []
-    scs = brokerlib.corpus(c.rng, ["broken-recipient", "alternating-hosts", "unsubscribe-overtakes-subscribe", "publish-workers-survive-failures", "local-log-fails-remote-accepts"])
+    scs = brokerlib.corpus(c.rng, ["broken-recipient", "alternating-hosts", "unsubscribe-overtakes-subscribe", "publish-workers-survive-failures", "local-log-fails-remote-accepts", "same-topic-before-and-after-remote-subscribe"])
     scs += [gen_faults(c.rng, c.rng.choice([2, 3, 3])) for _ in range(n_of(c, 20, 250))]
     run_scenarios(c, "cross-node-placement-and-unreachable-subsets", scs, samples)
     scs = [gen_converged(c.rng, c.rng.choice([2, 3]), 1, c.rng.choice([10, 16]), {"pub": 8, "sub": 4}) for _ in range(n_of(c, 6, 80))]
@@ -122,6 +122,8 @@ def c17(tier=None):
     run_scenarios(c, "everything-mixed-two-tenants", [brokerlib.gen_soup(c.rng, mounts=c.rng.choice([2, 3])) for _ in range(n_of(c, 8, 150))], samples)
     # wills of a failed node's sessions stay inside their own mount points
     scs = [brokerlib.gen_nodefail(c.rng, clean=False, mounts=2) for _ in range(n_of(c, 1, 8))]
+    # will topics that a path-cleaning helper would rewrite or move into another tenant
+    scs += [brokerlib.gen_nodefail(c.rng, clean=False, mounts=2, wt=wt) for wt in (["w//t", "../w"] if c.tier == "quick" else ["w//t", "/w", "w/t/", "../w", "w/./t", "w/../t", "../../w"])]
     run_scenarios(c, "tenants-node-failure-wills", scs, samples)
     return c.finish(samples=samples, rule="case = one script with clients spread over 2-3 mount points using '#', '+/...' and literal filters, publishes / retained messages / wills, and client identifiers shared across mount points")
 
@@ -138,7 +140,7 @@ def c02(tier=None):
     scs += [brokerlib.gen_broken_recipient_qos(c.rng) for _ in range(n_of(c, 10, 100))]
     run_scenarios(c, "acked-publish-delivered-under-timeouts", scs, samples)
     # "acknowledged" presupposes that every hosting node's log took the message: publishes under failing logs / nodes
-    scs = brokerlib.corpus(c.rng, ["local-log-fails-remote-accepts"]) + [gen_faults(c.rng, c.rng.choice([2, 3])) for _ in range(n_of(c, 8, 100))]
+    scs = brokerlib.corpus(c.rng, ["local-log-fails-remote-accepts", "same-topic-before-and-after-remote-subscribe"]) + [gen_faults(c.rng, c.rng.choice([2, 3])) for _ in range(n_of(c, 8, 100))]
     run_scenarios(c, "acknowledged-only-if-stored-everywhere", scs, samples)
     brokerlib.add_reallog_suites(c, samples)
     # a delivery is dropped after the acknowledgement when its (session, identifier) key is taken: the key space of the table
